@@ -738,7 +738,7 @@ func (fr *Frame) backEdge(from, h *ssa.BasicBlock, cond *Term, st *State) {
 		for _, c := range lc.spec.BackEdges {
 			t, err := fr.ex.safeEval(env, func() *Term { return env.boolOf(c.E) })
 			if err != "" {
-				fatal("contract error in backedge clause of %s #%d: %s", funcName(fr.fn), lc.ordinal, err)
+				contractFatal("contract error in backedge clause of %s #%d: %s", funcName(fr.fn), lc.ordinal, err)
 			}
 			ps := labelProps(c.Labels)
 			if len(ps) == 0 {
@@ -797,7 +797,7 @@ func (fr *Frame) loopExit(h, from *ssa.BasicBlock, cond *Term, st *State) {
 	for _, c := range lc.spec.Exits {
 		t, err := fr.ex.safeEval(env, func() *Term { return env.boolOf(c.E) })
 		if err != "" {
-			fatal("contract error in exit clause of %s #%d: %s", funcName(fr.fn), lc.ordinal, err)
+			contractFatal("contract error in exit clause of %s #%d: %s", funcName(fr.fn), lc.ordinal, err)
 		}
 		ps := labelProps(c.Labels)
 		if len(ps) == 0 {
